@@ -236,11 +236,12 @@ fn cmd_check(id: &str, tier: &str) {
         n_viol += 1;
         let path = match r {
             Some(r) => {
-                let ops = if shrunk_budget > 0 {
+                let (cfg_min, ops) = if shrunk_budget > 0 {
                     shrunk_budget -= 1;
-                    shrink(&r.cfg, &r.ops, &r.mode, prop, clause)
+                    let o = shrink(&r.cfg, &r.ops, &r.mode, prop, clause);
+                    run::shrink_cfg(&r.cfg, &o, &r.mode, prop, clause)
                 } else {
-                    r.ops.clone()
+                    (r.cfg.clone(), r.ops.clone())
                 };
                 let rf = ReplayFile {
                     property: prop.clone(),
@@ -250,7 +251,7 @@ fn cmd_check(id: &str, tier: &str) {
                     verif_seed: seed,
                     run_index: r.idx,
                     run_seed: r.seed,
-                    cfg: r.cfg.clone(),
+                    cfg: cfg_min,
                     ops,
                     original_op_count: r.ops.len(),
                     mode: r.mode.clone(),
@@ -373,8 +374,15 @@ fn cmd_replay(path: &str, quiet: bool) {
     }
     if !quiet {
         println!("ops={} (original {}), mode={}, names={:?}", rf.ops.len(), rf.original_op_count, rf.mode, rf.cfg.nodes.iter().map(|n| &n.name).collect::<Vec<_>>());
+        // outcomes of the plain interpretation, for the reader of the replay
+        let mut w = world::World::new(rf.cfg.clone());
+        w.keep_outcomes = true;
         for (i, op) in rf.ops.iter().enumerate() {
-            println!("  {i:3}: {op:?}");
+            w.apply(i, op);
+        }
+        for (i, op) in rf.ops.iter().enumerate() {
+            let oc: Vec<&str> = w.outcomes.iter().filter(|o| o.0 == i).map(|o| o.1.as_str()).collect();
+            println!("  {i:3}: {op:?}  -> {oc:?}");
         }
     }
     if hit {
